@@ -178,13 +178,16 @@ func VerifHarness_C48_enc_subsection() {
 	cfg.AddOption("s", sub, "k", "v w")
 	var buf bytes.Buffer
 	err := NewEncoder(&buf).Encode(cfg)
-	verifrt.Assert(err == nil, "c48-sub-noerr")
-	out := buf.Bytes()
-
 	hasNL := verifHasByte(sub, '\n')
 	badUTF := verifUTF8Invalid(sub)
+	// since repair 1761863 a name with a newline (no escape exists for it) is
+	// refused instead of being written verbatim; every other name is written
+	verifrt.Assert((err != nil) == hasNL, "c48-sub-refused-iff-newline")
+	if err != nil {
+		return
+	}
+	out := buf.Bytes()
 
-	verifrt.Known("C48-enc-subsection-newline", hasNL)
 	es, ok := VerifGitParse(out)
 	verifrt.Reach("c48-sub-git-read")
 	verifrt.Assert(ok, "c48-sub-git-accepts")
